@@ -44,6 +44,29 @@ func sameObs(a, b obs) bool {
 	return true
 }
 
+// traceOK: every frame the main world reports must be a frame of the twin's stack trace, in the
+// same order (frames of functions of closed modules may be missing, nothing may be added).
+func traceOK(m, t []string) bool {
+	j := 0
+	for _, f := range m {
+		for j < len(t) && t[j] != f {
+			j++
+		}
+		if j == len(t) {
+			return false
+		}
+		j++
+	}
+	return true
+}
+
+func traceMsg(what string, m, t obs) string {
+	if traceOK(m.Trace, t.Trace) {
+		return ""
+	}
+	return fmt.Sprintf("%s answered %v like the twin, but its wasm stack trace lists frames that are not on the call chain:\n  main: %q\n  twin: %q", what, m, m.Trace, t.Trace)
+}
+
 // judge is the oracle for one observation: equal to the twin's, or an ordinary
 // "module closed" error (sys.ExitError); an internal failure is never acceptable.
 func (r *runner) judge(what string, m, t obs) string {
@@ -51,7 +74,7 @@ func (r *runner) judge(what string, m, t obs) string {
 		return fmt.Sprintf("%s: internal failure: %v (twin history without close/drop/gc: %v)", what, m, t)
 	}
 	if sameObs(m, t) {
-		return ""
+		return traceMsg(what, m, t)
 	}
 	if m.Out.Kind == wz.KExit {
 		r.res.Labels["answer-is-exit-error"]++
@@ -68,7 +91,7 @@ func (r *runner) judgeStrict(what string, m, t obs) string {
 		return fmt.Sprintf("%s: internal failure: %v (twin history without close/drop/gc: %v)", what, m, t)
 	}
 	if sameObs(m, t) {
-		return ""
+		return traceMsg(what, m, t)
 	}
 	return fmt.Sprintf("%s (which involves live instances only) answered %v, but in the twin history without close/drop/gc it answers %v", what, m, t)
 }
